@@ -147,10 +147,12 @@ Classify(T, t) ==   \* the class the member gets when it is dispatched
   ELSE IF x.m \in {"nf", "rpc"} THEN "nf"
   ELSE "ok"
 
-Dispatch ==
-  /\ l <= Len(Trace) /\ Queued # {}
+\* Dequeue: nextRequest pops the batch and checkAndAssignLocked classifies it (duplicate ids are judged against
+\* the reservations of THIS moment; ids are reserved now).  The dispatcher holds at most one batch.
+Held == {u \in 1..Len(units) : units[u].st = "held"}
+Dequeue ==
+  /\ l <= Len(Trace) /\ Queued # {} /\ Held = {}
   /\ LET u == NextUnit  T == units[u].tags IN
-     /\ Imp("C03", EarlierNotesDone(u))
      /\ \E choice \in [SeqSet(T) -> {"asis", "flip"}] :
           \* without C07 the duplicate-id verdict is not judged: either reading is accepted
           /\ ("C07" \in Enforce => \A t \in SeqSet(T) : choice[t] = "asis")
@@ -159,13 +161,23 @@ Dispatch ==
                            ELSE IF Classify(T, t) = "dup" THEN "ok" ELSE "dup"
                  rsv(t) == cls(t) \in {"ok", "nf"} /\ mem[t].id # "" /\ mem[t].k = "call"
              IN  /\ mem' = [t \in DOMAIN mem |-> IF t \in SeqSet(T)
-                                                 THEN [mem[t] EXCEPT !.cls = cls(t), !.st = IF cls(t) = "ok" THEN "ready" ELSE "static"]
+                                                 THEN [mem[t] EXCEPT !.cls = cls(t), !.st = IF cls(t) = "ok" THEN "held" ELSE "static"]
                                                  ELSE mem[t]]
                  /\ used' = [id \in DOMAIN used \cup {mem[t].id : t \in {s \in SeqSet(T) : rsv(s)}} |->
                                IF id \in DOMAIN used THEN used[id]
                                ELSE CHOOSE t \in SeqSet(T) : rsv(t) /\ mem[t].id = id]
-     /\ units' = [units EXCEPT ![u].st = "disp", ![u].live = ~stopped]
+     /\ units' = [units EXCEPT ![u].st = "held", ![u].live = ~stopped]
   /\ UNCHANGED <<l, conc, push, rq, running, stopped, pend, causes, cancelOK, hcanc, cbs, notes, waitRet, rdDone, sendBad, stopOpen>>
+
+\* Pass: the held batch gets through the notification barrier; only now may its handlers start.
+\* C03: only when every notification of earlier batches has returned.
+Dispatch ==
+  /\ l <= Len(Trace) /\ Held # {}
+  /\ LET u == CHOOSE v \in Held : TRUE  T == units[u].tags IN
+     /\ Imp("C03", EarlierNotesDone(u))
+     /\ mem' = [t \in DOMAIN mem |-> IF t \in SeqSet(T) /\ mem[t].st = "held" THEN [mem[t] EXCEPT !.st = "ready"] ELSE mem[t]]
+     /\ units' = [units EXCEPT ![u].st = "disp"]
+  /\ UNCHANGED <<l, conc, push, rq, used, running, stopped, pend, causes, cancelOK, hcanc, cbs, notes, waitRet, rdDone, sendBad, stopOpen>>
 
 (***************************************************************************)
 (* Handlers.                                                               *)
@@ -178,6 +190,7 @@ HStart ==
      /\ t \in DOMAIN mem
      /\ t \notin running
      /\ \/ mem[t].st = "ready"
+        \/ (mem[t].st = "held" /\ ~("C03" \in Enforce))     \* started before its batch passed the barrier
         \* a member that must never run (invalid / unknown method: C02; duplicate id: C07;
         \* dropped or discarded by the stop: C08; filtered reply: C09)
         \/ /\ mem[t].st = "static"
@@ -458,8 +471,8 @@ Answerable(u) == /\ units[u].st = "disp" /\ units[u].live
 Quiescent ==
   /\ IsEvent("Quiescent")
   /\ rq = <<>>                                              \* the reader has dealt with what it received
-  /\ ~(Queued # {} /\ EarlierNotesDone(NextUnit))           \* every possible dispatch has been taken
-  /\ Imp("C03", Queued # {} => ~EarlierNotesDone(NextUnit))
+  /\ ~(Queued # {} /\ Held = {})                            \* every possible dequeue has been taken
+  /\ ~(Held # {} /\ EarlierNotesDone(CHOOSE v \in Held : TRUE))   \* ... and every possible pass of the barrier
   \* work conservation (C06) / later requests are not held up by a running call (C03)
   \* ... and a call that could run but never does will never be answered (C01)
   /\ ("C06" \in Enforce \/ "C03" \in Enforce \/ "C01" \in Enforce) =>
@@ -471,7 +484,7 @@ Quiescent ==
   \* C08: every call in flight at the stop has seen its context cancelled
   /\ Imp("C08", stopped => \A t \in running : mem[t].id # "" => t \in hcanc)
   \* C08: the server has fully stopped => WaitStatus has returned
-  /\ Imp("C08", (stopped /\ rdDone /\ running = {} /\ Queued = {} /\ ~stopOpen
+  /\ Imp("C08", (stopped /\ rdDone /\ running = {} /\ Queued = {} /\ Held = {} /\ ~stopOpen
                  /\ \A u \in 1..Len(units) : units[u].st \notin {"disp"} \/ ~Answerable(u)) => waitRet)
   \* C09: a callback whose reply arrived, whose context ended or whose server stopped has returned
   /\ Imp("C09", \A c \in DOMAIN cbs : (cbs[c].st = "sent" /\ (cbs[c].reply # "-" \/ cbs[c].ctxend \/ stopped)) => FALSE)
@@ -520,7 +533,7 @@ Terminal == /\ l <= Len(Trace) /\ Ev.ev \in {"Crash", "Deadlock", "Leak"}
             /\ l' = l + 1
             /\ UNCHANGED <<conc, push, mem, units, rq, used, running, stopped, pend, causes, cancelOK, hcanc, cbs, notes, waitRet, rdDone, sendBad, stopOpen>>
 
-Next == \/ Reset \/ Start \/ RecvMsg \/ Enqueue \/ Dispatch \/ HStart \/ HCancel \/ HExit
+Next == \/ Reset \/ Start \/ RecvMsg \/ Enqueue \/ Dequeue \/ Dispatch \/ HStart \/ HCancel \/ HExit
         \/ SendOK \/ SendFailed \/ StopB \/ StopE \/ RecvErr \/ ChClose \/ CancelB \/ CancelE
         \/ NotifyB \/ NotifyE \/ CallbackB \/ CtxEnd \/ CallbackE \/ WaitStatus \/ Quiescent
         \/ SendFailArmed \/ Final \/ Ignored \/ Terminal
